@@ -81,6 +81,10 @@ class MasterTruth:
         self.app_alloc = {}       # app -> (partition, path tuple, alloc dict)
         self.down = {}            # server -> [smin, smax] (observation based)
         self.last_not_down = {}   # server -> time last observed not down
+        self.view = set()         # presence as the master has been told
+        self.frozen = set()       # (informational)
+        self.marks = {}           # app -> server it was explicitly marked on
+        self.stored_state = None  # callable: server -> recorded state
 
     # -- C01 / C04 / C05
     def capacity_of(self, sname):
@@ -187,6 +191,40 @@ class MasterTruth:
     def down_interval(self, sname):
         iv = self.down.get(sname)
         return tuple(iv) if iv else None
+
+    def state_of(self, sname):
+        """The state the master has RECORDED for the server (the data of
+        /placement/<server>, which every state change is written to and which
+        a restarted master restores): a model that believes a server is up
+        while its own record says down or frozen has lost track of it."""
+        if self.stored_state is None:
+            return None
+        return self.stored_state(sname)
+
+    def marked(self, aname, sname):
+        return self.marks.get(aname) == sname
+
+
+_FREEZE_WRAPPED = False
+_FREEZE_LOG = None
+
+
+def _install_freeze_wrapper():
+    """Master._freeze_server is the one place an instance is 'explicitly
+    marked for unscheduling' (server_state event, pending-start check); the
+    harness records the calls (server, apps named)."""
+    global _FREEZE_WRAPPED
+    if _FREEZE_WRAPPED:
+        return
+    _FREEZE_WRAPPED = True
+    orig = mastermod.Master._freeze_server
+
+    def _freeze_server(self, servername, apps=None):
+        if _FREEZE_LOG is not None:
+            _FREEZE_LOG.append((servername, list(apps or [])))
+        return orig(self, servername, apps)
+
+    mastermod.Master._freeze_server = _freeze_server
 
 
 def _install_truth_wrappers():
@@ -357,6 +395,7 @@ class World:
             global _TRUTH
             old_truth = self.truth
             self.truth = MasterTruth()
+            self.truth.stored_state = self._stored_state
             if old_truth is not None:
                 self.truth.last_not_down = dict(old_truth.last_not_down)
             _TRUTH = self.truth
@@ -366,8 +405,10 @@ class World:
         if fault is not None:
             client.fault_plan = dict(fault, at=base + fault['at'])
         try:
-            self._guard('start', lambda: (master.load_model(),
-                                          master.init_schedule()))
+            self._guard('start', master.load_model)
+            if self.prop in CELL_PROPS:
+                self.truth_load_all()
+            self._guard('start', master.init_schedule)
         finally:
             client.fault_plan = None
             self.last_step_writes = client.nwrites - base
@@ -378,6 +419,191 @@ class World:
         self.probes['starts'] += 1
         self.cycles_since_start = 0
         self.dirty_since_cycle = False
+
+    # -- harness-side truth, driven by what the master has been shown
+    def _zk_obj(self, path):
+        node = self.zk.nodes.get(path)
+        if node is None or not node.data:
+            return None
+        try:
+            return json.loads(node.data.decode())
+        except ValueError:
+            return None
+
+    def _stored_state(self, sname):
+        stored = self._zk_obj(z.path.placement(sname))
+        if isinstance(stored, dict):
+            return stored.get('state')
+        return None
+
+    def _truth_app(self, name, add=True):
+        truth = self.truth
+        manifest = self._zk_obj(z.path.scheduled(name))
+        if not manifest:
+            truth.apps.pop(name, None)
+            truth.app_alloc.pop(name, None)
+            truth.marks.pop(name, None)
+            return
+        if name not in truth.apps:
+            if not add:
+                return
+            truth.apps[name] = manifest
+        truth.app_alloc[name] = truth.assign(name)
+
+    def _truth_server(self, name, adjust=True):
+        """Loader.reload_server as the harness reads it: a server whose
+        record changed (or that is new) is replaced and its state adjusted
+        from presence and the stored state; an unchanged one is left alone."""
+        truth = self.truth
+        data = self._zk_obj(z.path.server(name))
+        old = truth.srv.get(name)
+        if data and data.get('parent'):
+            truth.srv[name] = data
+            if adjust:
+                def shape(rec):
+                    return (_own_vec(rec), rec.get('partition') or '_default',
+                            sorted(rec.get('traits', []) or []),
+                            rec.get('parent'))
+                if old is None or shape(old) != shape(data):
+                    present = self.zk.nodes.get(
+                        z.path.server_presence(name)) is not None
+                    if present:
+                        truth.view.add(name)
+                    else:
+                        truth.view.discard(name)
+                        truth.frozen.discard(name)
+                    if old is None:
+                        stored = self._zk_obj(z.path.placement(name))
+                        if present and stored and \
+                                stored.get('state') == 'frozen':
+                            truth.frozen.add(name)
+        else:
+            truth.srv.pop(name, None)
+            truth.frozen.discard(name)
+
+    def truth_load_all(self):
+        """What a starting master reads, read by the harness itself."""
+        truth = self.truth
+        zk = self.zk
+        truth.srv = {}
+        for name in zk.children(z.SERVERS) or []:
+            self._truth_server(name, adjust=False)
+        truth.allocations = list(self._zk_obj(z.ALLOCATIONS) or [])
+        truth.apps = {}
+        truth.app_alloc = {}
+        for name in zk.children(z.SCHEDULED) or []:
+            self._truth_app(name)
+        truth.groups = {}
+        for name in zk.children(z.IDENTITY_GROUPS) or []:
+            data = self._zk_obj(z.path.identity_group(name))
+            if data:
+                truth.groups[name] = data.get('count', 0)
+        truth.view = set(zk.children(z.SERVER_PRESENCE) or [])
+        truth.frozen = set()
+        for name in truth.srv:
+            stored = self._zk_obj(z.path.placement(name))
+            # a server without presence is recorded as down at start-up,
+            # which overwrites a stored 'frozen'
+            if stored and stored.get('state') == 'frozen' and \
+                    name in truth.view:
+                truth.frozen.add(name)
+        truth.marks = {}
+
+    def truth_before_process(self, path, children):
+        """Payloads of the events in the snapshot (the master deletes the
+        event nodes after handling them)."""
+        if path != z.EVENTS:
+            return None
+        import re as _re
+        events = []
+        for node in children:
+            if _re.match(r'\d+\-\w+\-\d+$', node):
+                prio, resource, seq = node.split('-')
+                events.append((prio, seq, resource,
+                               self._zk_obj(z.path.event(node))))
+        events.sort(key=lambda e: (e[0], e[1], e[2]))
+        return events
+
+    def truth_after_process(self, path, children, events):
+        truth = self.truth
+        if path == z.SERVER_PRESENCE:
+            new_view = set(children)
+            came_up = sorted(new_view - truth.view)
+            went_down = sorted(truth.view - new_view)
+            truth.view = new_view
+            for name in went_down:
+                # the recorded state becomes 'down': a frozen mark does not
+                # survive the server going away
+                truth.frozen.discard(name)
+            for name in came_up:
+                if name in truth.srv:
+                    self._truth_server(name, adjust=False)  # reloaded
+        elif path == z.SCHEDULED:
+            target = set(children)
+            for name in sorted(set(truth.apps) - target):
+                truth.apps.pop(name, None)
+                truth.app_alloc.pop(name, None)
+                truth.marks.pop(name, None)
+            for name in sorted(target - set(truth.apps)):
+                self._truth_app(name)
+        elif path == z.EVENTS:
+            for _prio, _seq, resource, payload in events:
+                if resource == 'allocations':
+                    data = self._zk_obj(z.ALLOCATIONS)
+                    truth.allocations = list(data) if data else []
+                    # load_apps(): every instance still in /scheduled is
+                    # loaded again (and so re-assigned); one that is gone
+                    # from there keeps its allocation until the scheduled
+                    # snapshot is processed
+                    for name in self.zk.children(z.SCHEDULED) or []:
+                        self._truth_app(name)
+                elif resource == 'apps':
+                    for name in payload or []:
+                        self._truth_app(name)
+                elif resource == 'servers':
+                    names = payload or sorted(
+                        set(truth.srv) ^ set(self.zk.children(z.SERVERS)
+                                             or []))
+                    for name in names:
+                        self._truth_server(name)
+                elif resource == 'server_state':
+                    if payload:
+                        name, state = payload[0], payload[1]
+                        apps = payload[2] if len(payload) > 2 else None
+                        if name not in truth.srv:
+                            continue
+                        if state == 'frozen':
+                            truth.frozen.add(name)
+                            server = self.master.servers.get(name)
+                            for aname in apps or []:
+                                if server is not None and \
+                                        aname in server.apps:
+                                    truth.marks[aname] = name
+                        elif state == 'up':
+                            truth.frozen.discard(name)
+                            truth.view.add(name)
+                        elif state == 'down':
+                            truth.frozen.discard(name)
+                            truth.view.discard(name)
+                elif resource == 'identity_groups':
+                    truth.groups = {}
+                    for name in self.zk.children(z.IDENTITY_GROUPS) or []:
+                        data = self._zk_obj(z.path.identity_group(name))
+                        if data:
+                            truth.groups[name] = data.get('count', 0)
+
+    def truth_apply_freezes(self, log):
+        """Calls of Master._freeze_server during the step just made."""
+        truth = self.truth
+        for servername, apps in log:
+            if servername not in truth.srv:
+                continue
+            truth.frozen.add(servername)
+            server = self.master.servers.get(servername) \
+                if self.master is not None else None
+            for aname in apps:
+                if server is not None and aname in server.apps:
+                    truth.marks[aname] = servername
 
     def cycle_hook(self, cell, orig_schedule):
         """Observe a cell.schedule() made by the real Master (C01/C04/C05 at
@@ -421,6 +647,10 @@ class World:
         bad = cellcheck.CHECKS[self.prop](ctx)
         if bad is not None:
             self.fail(bad[0] + ':master-level', bad[1])
+        for aname, sname in list(self.truth.marks.items()):
+            post = ctx.post.get(aname)
+            if post is None or post.server != sname:
+                del self.truth.marks[aname]
         return ctx.placement
 
     def observe_states(self, ctx):
@@ -628,6 +858,10 @@ class World:
             self.probes['stale_snapshot_processed'] += 1
         self.master.process_complete.setdefault(
             path, self.master.backend.event_object())
+        global _FREEZE_LOG
+        cellp = self.prop in CELL_PROPS
+        events = self.truth_before_process(path, children) if cellp else None
+        _FREEZE_LOG = [] if cellp else None
         try:
             # Master.process is wrapped by utils.exit_on_unhandled (logs and
             # exits); call the wrapped function so the cause is visible.
@@ -639,8 +873,12 @@ class World:
                 self._guard('process', lambda: self.master.process(
                     (path, children)))
         except MasterDied as err:
+            _FREEZE_LOG = None
             self.on_master_died(err)
             return
+        if cellp:
+            self.truth_after_process(path, children, events)
+            _FREEZE_LOG = None
         self.probes['events_processed'] += 1
         # the watcher re-arms: a change since the snapshot is noticed now
         self._snapshot(path)
@@ -701,11 +939,18 @@ class World:
             return
         frozen_before = {n for n, s in master.servers.items()
                          if s.state is scheduler.State.frozen}
+        global _FREEZE_LOG
+        cellp = self.prop in CELL_PROPS
+        _FREEZE_LOG = [] if cellp else None
         try:
             self._guard('check_integrity', master.check_integrity)
         except MasterDied as err:
+            _FREEZE_LOG = None
             self.on_master_died(err)
             return
+        if cellp:
+            self.truth_apply_freezes(_FREEZE_LOG)
+            _FREEZE_LOG = None
         frozen_after = {n for n, s in master.servers.items()
                         if s.state is scheduler.State.frozen}
         self.probes['pending_start_freeze'] += len(frozen_after -
@@ -1170,6 +1415,35 @@ class Generator:
             {'op': 'restart'}])
         return {'op': 'presence_down', 'name': name}
 
+    def g_flap_with_reload(self, world):
+        """A server with instances goes down, its record is changed while it
+        is down (so it comes back as a new server object), and it goes down
+        again later: the second outage must count from its own beginning."""
+        stored = world.stored_placement()
+        servers = sorted({s for recs in stored.values() for s, _d in recs
+                          if world.zk.nodes.get(z.path.server_presence(s))})
+        if not servers:
+            return None
+        name = self.rng.choice(servers)
+        spec = server_spec(self.rng, self.config, name)
+        cur = world._zk_obj(z.path.server(name)) \
+            if hasattr(world, '_zk_obj') else None
+        if cur:
+            spec['parent'] = cur.get('parent', spec['parent'])
+            spec['partition'] = cur.get('partition') or '_default'
+            spec['traits'] = cur.get('traits', [])
+        spec['op'] = 'srv_set'
+        self.follow.extend([
+            {'op': 'drain'}, {'op': 'master_cycle'},
+            spec,
+            self.rng.choice([{'op': 'drain'}, {'op': 'restart'}]),
+            {'op': 'presence_up', 'name': name},
+            {'op': 'drain'}, {'op': 'master_cycle'},
+            {'op': 'advance', 'dt': self.rng.choice([31.0, 301.0, 3601.0])},
+            {'op': 'presence_down', 'name': name},
+            {'op': 'drain'}, {'op': 'master_cycle'}])
+        return {'op': 'presence_down', 'name': name}
+
     def g_identity_churn(self, world):
         """The holder of a low identity leaves, then the group shrinks below
         an identity that is still held; optionally the master fails over."""
@@ -1205,6 +1479,7 @@ OP_WEIGHTS = [
     ('advance', 8), ('snap', 10), ('process', 14), ('drain', 10),
     ('master_cycle', 22), ('integrity', 3), ('tick', 1), ('restart', 3),
     ('failover_after_down', 3), ('identity_churn', 3), ('cell_bucket', 2),
+    ('flap_with_reload', 2),
 ]
 
 
@@ -1254,6 +1529,10 @@ def gen_allocations(rng, cfg):
                             'pattern': '%s.%s' % (proid, rng.choice(
                                 ['*', '*', 'web*', 'db*'])),
                             'priority': rng.choice([1, 10, 50])})
+                # optional keys may be absent rather than null
+                for key in ('max_utilization', 'rank_adjustment', 'traits'):
+                    if not alloc[key] and rng.random() < 0.5:
+                        del alloc[key]
                 out.append(alloc)
     return out
 
@@ -1389,7 +1668,7 @@ class MasterSim(enginemod.Engine):
             world = World(config, clock, prop, log)
             if prop in CELL_PROPS:
                 cellobs.install()
-                _install_truth_wrappers()
+                _install_freeze_wrapper()
                 cellobs.set_cycle_hook(world.cycle_hook)
             t_begin = clock.peek()
             executed = []
